@@ -9,15 +9,17 @@
 (*   - no intermediate of Multiply exceeds 2W bits (uint64_t never wraps),               *)
 (*   - hi * 2^(2W) + lo = a * b for ALL a, b < 2^(2W)            (state = <<a, b>>),     *)
 (*   - the sign/compare logic equals Sgn(a*b - c*d) and (a*b = c*d) for ALL              *)
-(*     a, b, c, d in -2^W .. 2^W                                 (state = <<a,b,c,d>>).  *)
+(*     a, b, c, d in -RNG .. RNG, RNG <= 2^(2W) - 1 (so that hi words differ, or are      *)
+(*     equal with different lo words, in both sign combinations)  (state = <<a,b,c,d>>).  *)
 (* The correspondence with the real code is established separately by C18Trace (the     *)
 (* real functions are executed on TLC-generated boundary vectors lifted to W = 32).      *)
 EXTENDS Integers, TLC
-CONSTANTS W, MODE              \* MODE = "mul" | "sign"
+CONSTANTS W, MODE, RNG         \* MODE = "mul" | "sign"; RNG = operand range of the sign scope
 VARIABLES a, b, c, d
 
 M == 2 ^ W                      \* limb modulus
 Full == M * M                   \* word modulus (2^(2W))
+ASSUME RNG <= Full - 1
 LoW(x) == x % M
 HiW(x) == x \div M
 AbsI(x) == IF x < 0 THEN -x ELSE x
@@ -49,7 +51,7 @@ PortSign(p, q, r, s) ==
      ELSE IF sab > scd THEN 1 ELSE -1
 
 Init == IF MODE = "mul" THEN a \in 0..(Full - 1) /\ b \in 0..(Full - 1) /\ c = 0 /\ d = 0
-        ELSE a \in -M..M /\ b \in -M..M /\ c \in -M..M /\ d \in -M..M
+        ELSE a \in -RNG..RNG /\ b \in -RNG..RNG /\ c \in -RNG..RNG /\ d \in -RNG..RNG
 Next == UNCHANGED <<a, b, c, d>>
 Spec == Init /\ [][Next]_<<a, b, c, d>>
 
